@@ -11,12 +11,12 @@ METRICS = ["cd", "pcd", "ce", "mnn", "2nn"]
 
 
 def nds_front(F):
-    n = len(F)
-    keep = []
-    for i in range(n):
-        if not any(((F[j] < F[i]).any() and not (F[i] < F[j]).any()) for j in range(n) if j != i):
-            keep.append(i)
-    return F[keep]
+    """non-dominated rows of F (vectorised)"""
+    if len(F) == 0:
+        return F
+    less = (F[:, None, :] < F[None, :, :]).any(axis=2)       # less[i, j]: i better than j somewhere
+    dom = less & ~less.T                                       # dom[i, j]: i dominates j
+    return F[~dom.any(axis=0)]
 
 
 def gen_front(rng, N, M):
